@@ -86,7 +86,7 @@ pub fn grid_types() -> Vec<DataType> {
         FixedSizeList(item(Int32), 2), FixedSizeList(item(Int32), 1), FixedSizeList(item(Utf8), 3),
         FixedSizeList(item(Int64), 1), FixedSizeList(item(Int32), 0), FixedSizeList(item(List(item(Int32))), 1),
         List(item(Utf8)), List(item(Int64)), List(item(List(item(Int32)))), List(item(Timestamp(Second, None))),
-        LargeList(item(Float64)), ListView(item(Utf8)),
+        LargeList(item(Float64)), ListView(item(Utf8)), List(item(ree(Int32, Int32))),
         strukt(&[("a", Int32), ("b", Utf8)]), strukt(&[("b", Utf8), ("a", Int32)]),
         strukt(&[("a", Int64), ("b", LargeUtf8)]), strukt(&[("x", Int8), ("y", Utf8View)]),
         strukt(&[("b", Int64), ("a", Interval(IntervalUnit::DayTime))]),
@@ -827,10 +827,10 @@ pub fn related_type(rng: &mut Rng, a: &DataType, depth: u32) -> DataType {
             return inner;
         }
         return match rng.below(4) {
-            0 if !matches!(inner, Dictionary(_, _) | RunEndEncoded(_, _)) && !inner.is_nested() => {
+            0 if !matches!(inner, Dictionary(_, _) | RunEndEncoded(_, _) | Null) && !inner.is_nested() => {
                 dict(rng.pick(&keys).clone(), inner)
             }
-            1 if !matches!(inner, Dictionary(_, _) | RunEndEncoded(_, _)) && !inner.is_nested() => {
+            1 if !matches!(inner, Dictionary(_, _) | RunEndEncoded(_, _) | Null) && !inner.is_nested() => {
                 ree(rng.pick(&[Int16, Int32, Int64]).clone(), inner)
             }
             _ => relist(rng, inner),
